@@ -52,7 +52,7 @@ def do_import(src, pid, ns):
 
 
 def refresh(which):
-    names = sorted(os.listdir(SEEDED)) if not which else which
+    names = sorted(n for n in os.listdir(SEEDED) if os.path.isdir(os.path.join(SEEDED, n))) if not which else which
     for name in names:
         d = os.path.join(SEEDED, name)
         mp = os.path.join(d, "meta.json")
@@ -65,8 +65,17 @@ def refresh(which):
             meta["detection"] = {"status": "property not claimed yet"}
         else:
             st, detail, viol = sensitivity.check_patch(pid, os.path.join(d, "patch.diff"))
+            from tc.report import load_known
+            kn = {e["key"] for e in load_known() if e.get("status") == "known"}
+            viol = [v for v in viol if v["key"] not in kn]
             meta["detection"] = {"status": st, "rules": sorted({v["rule"] for v in viol}), "keys": [v["key"] for v in viol][:8],
                                  "check": "./check %s on a scratch copy with patch.diff applied (tools/keep_seeded.py refresh)" % pid}
+        try:
+            prov = json.load(open(os.path.join(SEEDED, "provenance.json")))
+            if name in prov:
+                meta["rule_provenance"] = prov[name]
+        except Exception:
+            pass
         json.dump(meta, open(mp, "w"), indent=1)
         print(name, meta["detection"]["status"], meta["detection"].get("rules"))
 
